@@ -41,3 +41,4 @@ import SluVerif.Proofs.InitCursor
 #print axioms Slu.parallelInit_loop_covers
 #print axioms Slu.initLoop_frame
 #print axioms Slu.parallelInit_queue_cursors
+#print axioms Slu.parallelInit_sizes
